@@ -794,6 +794,10 @@ class Interp(ExprMixin):
                 self.note(st, 'B1', node, what=f'{cls.key} has no attribute {name!r}')
         if isinstance(recv, Tup) and recv.kind == 'vec' and name in ('astype', 'copy'):
             return recv
+        if isinstance(recv, Tup) and name == '_asdict' and not args and not kwargs and recv.key in NT_FIELDS \
+                and len(NT_FIELDS[recv.key]) == len(recv):
+            # the fields of a NamedTuple by name
+            return app('dict', *[Tup([Const(f_), x_]) for f_, x_ in zip(NT_FIELDS[recv.key], recv.items)])
         if isinstance(recv, Const) and isinstance(recv.value, str) and name in ('lower', 'upper', 'strip') \
                 and all(isinstance(a, Const) and isinstance(a.value, str) for a in args):
             return Const(getattr(recv.value, name)(*[a.value for a in args]))
@@ -847,6 +851,13 @@ class Interp(ExprMixin):
             return HANDLERS['numpy.' + name](self, st, [recv], {}, node)
         if name in ('min', 'max') and isinstance(recv, Tup) and not args and not kwargs:
             return HANDLERS['numpy.' + name](self, st, [recv], {}, node)
+        if name in ('prod', 'sum') and isinstance(recv, Tup) and recv.kind == 'vec' and recv.items and not args and not kwargs:
+            from .npmodel import _dimlike
+            if all(isinstance(i, Poly) and _dimlike(i) for i in recv.items):
+                out = recv.items[0]             # a short vector of dimensions: the product / sum of its items
+                for i in recv.items[1:]:
+                    out = out * i if name == 'prod' else out + i
+                return out
         if name == 'sum' and isinstance(recv, Poly):
             return HANDLERS['numpy.sum'](self, st, [recv] + list(args), kwargs, node)
         if name in ('min', 'max') and isinstance(recv, Poly):
@@ -1229,12 +1240,21 @@ class Interp(ExprMixin):
                 or (len(it) <= 12 and all(_fully_known(i) for i in it.items))):
             # a list whose items are all known: iterate concretely
             states, done, left = [st], [], []
-            for item in it.items:
+            origins = _loop_origins(s)
+            for pos, item in enumerate(it.items):
                 nxt = []
                 for cur in states:
                     self.assign(s.target, item, cur, s)
+                    before = {v: cur.env.get(v) for v, _ in origins}
                     c, d = self.exec_block(s.body, [cur])
                     for b in c:
+                        # the loop variable names an element of a list held in another variable: an in-place update
+                        # through the loop variable is an update of that element
+                        for v, lst in origins:
+                            val, seq = b.env.get(v), b.env.get(lst)
+                            if before[v] is not None and val is not None and val != before[v] and _rooted(val, before[v]) \
+                                    and isinstance(seq, Tup) and seq.kind == 'list' and pos < len(seq) and seq.items[pos] == before[v]:
+                                b.env[lst] = Tup(seq.items[:pos] + (val,) + seq.items[pos + 1:], 'list')
                         if b.jump == 'break':
                             b.jump = None
                             left.append(b)
@@ -1510,6 +1530,32 @@ def _known_mapping(v):
                 return None
             out[pr.items[0].value] = pr.items[1]
     return out
+
+
+def _loop_origins(s):
+    """(loop variable, list variable) pairs of `for v in L`, `for i, v in enumerate(L)` and `for a, b in zip(L1, L2)`."""
+    t, it = s.target, s.iter
+    if isinstance(t, ast.Name) and isinstance(it, ast.Name):
+        return [(t.id, it.id)]
+    if isinstance(it, ast.Call) and isinstance(it.func, ast.Name) and not it.keywords and isinstance(t, ast.Tuple):
+        if it.func.id == 'zip' and len(it.args) == len(t.elts):
+            return [(e.id, a.id) for e, a in zip(t.elts, it.args) if isinstance(e, ast.Name) and isinstance(a, ast.Name)]
+        if it.func.id == 'enumerate' and len(it.args) == 1 and len(t.elts) == 2 and isinstance(t.elts[1], ast.Name) \
+                and isinstance(it.args[0], ast.Name):
+            return [(t.elts[1].id, it.args[0].id)]
+    return []
+
+
+def _rooted(val, root):
+    """``val`` is ``root`` after one or more in-place item assignments."""
+    while isinstance(val, Poly):
+        a = val.single_atom()
+        if a is None or a[0] != 'app' or a[1] != 'setitem':
+            return False
+        val = a[2][0]
+        if val == root:
+            return True
+    return False
 
 
 def _fully_known(v):
